@@ -1866,7 +1866,9 @@ impl Exec {
                         if let Some(i) = c {
                             self.eng[i].reset(nb, np.clone());
                         }
-                        if self.on(3) || self.on(8) || self.on(2) {
+                        {
+                            // the replica was advanced through the in-place entry point into a used buffer: every
+                            // armed per-position oracle looks at it too
                             if self.on(2) {
                                 let n1 = rb.make_move_new(lib_mv(mv));
                                 if n1 != nb || !boards_identical(&n1, &nb) {
